@@ -30,9 +30,9 @@ META = {
 def case(draw):
     kinds = ["plateau", "plateau", "multipeak", "multipeak", "monotone", "random", "nan", "sparse", "smooth"]
     if draw(st.integers(0, 2)) == 0:
-        s = draw(GS.spec2d_case(max_nf=20, max_nd=24, max_cells=6000, kinds=kinds, max_len=4, history=True))
+        s = draw(GS.spec2d_case(max_nf=20, max_nd=24, max_cells=6000, kinds=kinds, max_len=4, history=True, dtypes=True))
     else:
-        s = draw(GS.spec1d_case(kinds=kinds, max_len=8, layouts=["none", "t", "t", "tl", "flat"], history=True))
+        s = draw(GS.spec1d_case(kinds=kinds, max_len=8, layouts=["none", "t", "t", "tl", "flat"], history=True, dtypes=True))
     b = draw(GS.band(s["f"], kinds=("default", "default", "random", "random", "grid", "grid", "single", "empty")))
     return {"spec": s, **b}
 
@@ -57,6 +57,8 @@ def run(c):
     classes = ["band_" + c["band"], "layout_" + sc["layout"], "spec_" + sc["kind"], "values_" + sc["values"]]
     if sc.get("history"):
         classes.append("object_modified_in_place_after_earlier_queries")
+    if sc.get("dtype"):
+        classes.append("density_stored_as_" + sc["dtype"])
     spec = GS.build(sc)
     ar = np.arange(n)
     nontriv = False
